@@ -1339,7 +1339,7 @@ class WindowGen(Gen):
 # non-equality correlated [NOT] EXISTS over duplicate outer rows, CTEs referenced from a subquery
 # and from the main query, chained set operations with mixed quantifiers, wide integer group keys.
 class Shapes2(OptShapes):
-    SHAPES = ["pjk_skew", "having_topn", "topn_offset", "corr_exists_noneq", "corr_exists_or", "cte_multi", "cte_semi", "setop_chain", "agg_wide"]
+    SHAPES = ["pjk_skew", "having_topn", "topn_offset", "corr_exists_noneq", "corr_exists_or", "cte_multi", "cte_semi", "setop_chain", "agg_wide", "union_join_str", "samecols_semi"]
 
     def case(self, cid):
         r = self.rng
@@ -1560,6 +1560,71 @@ class Shapes2(OptShapes):
                 sql += f" LIMIT {lim}"
                 m["limit"] = lim
         return Q(sql, m, [(name, "int")]), tabs
+
+    # --- C31/C03: both join inputs have the SAME column names; a qualified IN / NOT IN key that belongs to either input -----
+    # (rules that reason about unqualified names -- semi-join pushdown, predicate / projection pushdown -- must follow the qualifier)
+    def s2_samecols_semi(self):
+        r = self.rng
+        mk = lambda n: [[r.randint(0, 3), r.randint(0, 3), r.randint(0, 2)] for _ in range(n)]
+        t0 = self.tab("t0", [("id", "int"), ("ref", "int"), ("v", "int")], mk(r.randint(1, 5)), ("id", "ref", "v"))
+        t1 = self.tab("t1", [("id", "int"), ("ref", "int"), ("v", "int")], mk(r.randint(1, 5)), ("id", "ref", "v"))
+        t2 = self.tab("t2", [("id", "int"), ("v", "int")], [[r.randint(0, 3), r.randint(0, 2)] for _ in range(r.randint(0, 4))], ("id", "v"))
+        a0, a1 = self.fresh("x"), self.fresh("x")
+        both = Scope(self.cols(t0, a0) + self.cols(t1, a1))
+        on = self.cmp(both.ref(0, r.choice([0, 1])), "=", both.ref(0, r.choice([3, 4])))
+        a2 = self.fresh("x")
+        s2 = Scope(self.cols(t2, a2), both)
+        w2 = self.cmp(s2.ref(0, 1), r.choice(["<=", ">=", "<>"]), Lit("int", r.randint(0, 2))) if r.random() < 0.4 else None
+        insub = self.sel(f"t2 AS {a2}", {"k": "table", "name": "t2"}, [s2.ref(0, 0)], where=w2)
+        key = both.ref(0, r.choice([0, 3, 3, 1, 4, 2, 5]))          # a column of the left OR the right input, always qualified
+        neg = 1 if r.random() < 0.25 else 0
+        w = E(f"({key.sql} {'NOT ' if neg else ''}IN ({insub.sql}))", {"k": "insub", "a": key.m, "q": insub.m, "neg": neg}, "bool")
+        if r.random() < 0.3:
+            extra = self.cmp(both.ref(0, r.choice([2, 5])), r.choice(["<=", ">="]), Lit("int", r.randint(0, 2)))
+            w = E(f"({w.sql} AND {extra.sql})", {"k": "and", "a": w.m, "b": extra.m}, "bool")
+        fsql = f"t0 AS {a0} INNER JOIN t1 AS {a1} ON {on.sql}"
+        fm = {"k": "join", "kind": "inner", "l": {"k": "table", "name": "t0"}, "r": {"k": "table", "name": "t1"}, "on": on.m, "ln": 3, "rn": 3}
+        proj = [both.ref(0, i) for i in sorted(r.sample(range(6), r.randint(2, 4)))]
+        return self.sel(fsql, fm, proj, where=w), [t0, t1, t2]
+
+    # --- C30: UNION ALL of a plain scan and a hash join that gathers VARCHAR / other columns from a small build side ----------
+    # (a join gather may hand back dictionary-encoded columns: every batch of the result must still carry the reported types,
+    #  whichever branch produced the first batch)
+    def s2_union_join_str(self):
+        r = self.rng
+        t0 = self.tab("t0", [("k0", "int"), ("s0", "str"), ("d0", r.choice(["date", "int", "dbl"]))],
+                      [[r.randint(0, 3), r.choice([None, 0, 1, 2, 3, 4]), r.choice([None, 0, 1, 2])] for _ in range(r.randint(1, 5))], ("k0",))
+        t1 = self.tab("t1", [("k1", "int"), ("s1", "str"), ("d1", t0.cols[2][1])],
+                      [[r.randint(0, 3), r.choice([None, 0, 1, 2, 5, 6]), r.choice([None, 0, 1, 3])] for _ in range(r.randint(1, 5))], ("k1",))
+
+        def plain():
+            t = r.choice([t0, t1])
+            a = self.fresh("x")
+            sc = Scope(self.cols(t, a))
+            idx = [1] + ([2] if two else [])
+            return self.sel(f"{t.name} AS {a}", {"k": "table", "name": t.name}, [sc.ref(0, i) for i in idx])
+
+        def joined():
+            a0, a1 = self.fresh("x"), self.fresh("x")
+            sc = Scope(self.cols(t0, a0) + self.cols(t1, a1))
+            on = self.cmp(sc.ref(0, 0), "=", sc.ref(0, 3))
+            kind = r.choice(["inner", "inner", "left"])
+            fsql = f"t0 AS {a0} {kind.upper()} JOIN t1 AS {a1} ON {on.sql}"
+            fm = {"k": "join", "kind": kind, "l": {"k": "table", "name": "t0"}, "r": {"k": "table", "name": "t1"}, "on": on.m, "ln": 3, "rn": 3}
+            side = r.choice([0, 3])
+            idx = [side + 1] + ([side + 2] if two else [])
+            return self.sel(fsql, fm, [sc.ref(0, i) for i in idx])
+        two = r.random() < 0.5
+        n = r.choice([2, 2, 3])
+        kinds = [r.choice(["p", "j"]) for _ in range(n)]
+        if "j" not in kinds:
+            kinds[r.randrange(n)] = "j"
+        qs = [plain() if k == "p" else joined() for k in kinds]
+        sql, m = qs[0].sql, qs[0].m
+        for q in qs[1:]:
+            sql = f"{sql} UNION ALL {q.sql}"
+            m = {"k": "setop", "op": "union", "all": 1, "l": m, "r": q.m, "order": [], "limit": -1, "offset": 0}
+        return Q(sql, m, list(qs[0].cols)), [t0, t1]
 
     # --- C04/C21: integer group keys spanning more than the dense-path limit --------------------------------------------
     def s2_agg_wide(self):
